@@ -165,6 +165,7 @@ PROPS = {
         "units": [
             {"pkg": "./c07", "run": "TestC07PassThrough|TestC07NoRoute", "shards": 6, "shards_thorough": 16, "timeout": 900},
             {"pkg": "./c07", "run": "TestC07ConcurrentExchanges", "race": True, "shards": 2, "shards_thorough": 6, "timeout": 900},
+            {"pkg": "./mainpkg", "run": "^TestC07", "shards": 2, "shards_thorough": 4, "timeout": 900},
         ],
         "rule": ("real loopback chain raw-TCP client -> proxy.HTTPProxy (httptest server, real http.Transport) -> recording upstream. rapid-generated requests: method (GET POST PUT DELETE PATCH OPTIONS HEAD PURGE), "
                  "request target with percent-encoded octets (%2F %2f %20 %41 %C3%A9 %25 %3F %23), dot segments, empty segments, query (absent / encoded / repeated keys), 0-8 end-to-end headers with odd-cased and "
@@ -286,12 +287,15 @@ PROPS = {
         "assumptions": COMMON_ASSUME + ["the copy of main.go compiled into the harness is refreshed from /repo on every run"],
     },
     "C05": {
-        "units": [{"pkg": "./c05", "shards": 4, "shards_thorough": 16, "timeout": 600}],
+        "units": [
+            {"pkg": "./c05", "shards": 4, "shards_thorough": 16, "timeout": 600},
+            {"pkg": "./mainpkg", "run": "^TestC05", "shards": 2, "shards_thorough": 4, "timeout": 900},
+        ],
         "rule": ("rapid-generated programs of 1-25 well-formed route add/del/weight commands (all documented forms, flexible spacing) over 3 services, 6 hosts in random letter case, "
                  "4 paths, 4 targets, tags incl. backslash and non-ASCII, option maps, weights with <=4 decimals. Oracle: independent in-harness model of the documented semantics "
                  "(idempotent add, exact del selection + no empty routes/hosts, weight w/n on exactly the matching targets, case-insensitive hosts), compared with Table/Route/Target fields; "
                  "round trip NewTable(t.String()) compared with the same model for tables without weight-only twins and with 4-decimal weights; add-idempotence metamorphic check. "
-                 "Non-trivial = program contains a del or weight that selects a strict non-empty subset of the existing targets; distinct by program text."),
+                 "Non-trivial = program contains a del or weight that selects a strict non-empty subset of the existing targets; distinct by program text. Update-loop form (mainpkg): histories of service-side and manual-side updates through main.go's watchBackend; the active table equals NewTable(service text + manual text) whichever side changed last."),
         "technique": "rapid model-based test: command programs against an independent reference model, plus text round trip",
         "level_text": "Generated command programs are applied by fabio and by an independent model of the documented semantics; every route, target, tag list, option map, fixed and effective weight is compared, then the table's text rendering is re-parsed and compared again. Exploration only.",
         "level_note": "A 'route weight' that matches nothing is expected to be rejected (current documented behaviour in TestTableParse); tags containing a double quote or comma cannot be written in the language and are not generated.",
